@@ -596,6 +596,17 @@ def _fixup_name_table(fn: ast.FunctionDef) -> dict:
     return {'prefixes': prefixes, 'rules': rules}
 
 
+def _snapshot_loop_var(n: ast.For) -> str | None:
+    """`for v in instances` or `for i, v in enumerate(instances[, start])` (the same elements, paired with a number): v."""
+    it, tg = n.iter, n.target
+    if isinstance(it, ast.Call) and isinstance(it.func, ast.Name) and it.func.id == 'enumerate' and len(it.args) in (1, 2) \
+            and all(k.arg == 'start' for k in it.keywords) and isinstance(tg, ast.Tuple) and len(tg.elts) == 2:
+        it, tg = it.args[0], tg.elts[1]
+    if ast.unparse(it) == 'instances' and isinstance(tg, ast.Name):
+        return tg.id
+    return None
+
+
 def _collapse_all_shape(fn: ast.FunctionDef, module: ast.Module) -> dict:
     params = [a.arg for a in fn.args.args]
     loops = [s for s in fn.body if isinstance(s, ast.For)]
@@ -613,11 +624,11 @@ def _collapse_all_shape(fn: ast.FunctionDef, module: ast.Module) -> dict:
     ret_empty = len(body) > 1 and isinstance(body[1], ast.If) and ast.unparse(body[1].test) == 'not instances' \
         and len(body[1].body) == 1 and isinstance(body[1].body[0], ast.Return) and body[1].body[0].value is None
     inner = [s for s in body if isinstance(s, ast.For)]
-    inner_ok = len(inner) == 1 and ast.unparse(inner[0].iter) == 'instances' and isinstance(inner[0].target, ast.Name)
+    inner_ok = len(inner) == 1 and _snapshot_loop_var(inner[0]) is not None
     removes = collapses = False
     no_escape = True
     if inner_ok:
-        var = inner[0].target.id
+        var = _snapshot_loop_var(inner[0])
         for n in ast.walk(inner[0]):
             if isinstance(n, (ast.Break, ast.Continue)):
                 no_escape = False
@@ -892,7 +903,7 @@ def _cycle_repair(itree: ast.Module) -> dict:
 
     # ---- collapse_all: if inst.filename in inst.parents: raise RecursionError  (before collapse_one is reached)
     defs_all = _single_defs(call)
-    inner = [n for n in ast.walk(call) if isinstance(n, ast.For) and ast.unparse(n.iter) == 'instances' and isinstance(n.target, ast.Name)]
+    inner = [n for n in ast.walk(call) if isinstance(n, ast.For) and _snapshot_loop_var(n) is not None]
     check = False
     why2 = 'collapse_all does not look at .parents'
     mentions = _mentions_attr(call, FIELD)
@@ -900,7 +911,7 @@ def _cycle_repair(itree: ast.Module) -> dict:
         if len(inner) != 1:
             raise TranslateError('collapse_all: `.parents` is used but the loop over the snapshot was not found')
         body = inner[0].body
-        var = inner[0].target.id
+        var = _snapshot_loop_var(inner[0])
         recognised: list[tuple[int, ast.If, bool]] = []      # (index in body, statement, raise is in the orelse branch)
         for i, st in enumerate(body):
             if not isinstance(st, ast.If):
